@@ -46,7 +46,7 @@ def direct_effects(cx, p):
         elif not (nm.startswith("std::") or nm.startswith("core::") or nm.startswith("alloc::") or nm.startswith("<")):
             if not any(nm.startswith(a) or a in nm for a in ALLOWED_DEP_PREFIXES):
                 eff.append(("unclassified-dependency", nm, mir.loc_of(t)))
-        if nm in HASH_ORDER:
+        if is_hash_order(nm):
             eff.append(("hash-order", nm, mir.loc_of(t)))
     for blk in b["blocks"]:
         if blk["cleanup"]:
@@ -64,8 +64,24 @@ def direct_effects(cx, p):
 
 
 ALLOWED_DEP_PREFIXES = ("serde_json::to_string", "_serde::", "serde::")
-HASH_ORDER = {"std::collections::HashSet::iter", "std::collections::HashMap::iter", "std::collections::HashMap::keys",
-              "std::collections::HashMap::values", "<std::collections::HashSet<T, S, A> as std::iter::IntoIterator>::into_iter"}
+HASH_ITER_METHODS = {"iter", "iter_mut", "keys", "values", "values_mut", "into_keys", "into_values", "drain", "retain", "extract_if",
+                     "difference", "symmetric_difference", "intersection", "union"}
+
+
+def is_hash_order(nm):
+    """does the call observe the iteration order of a std hash collection (RandomState: differs per map / thread / process)?
+    inherent iteration methods, every IntoIterator impl of HashMap/HashSet (owned, & and &mut), and any method of the hash_map / hash_set iterator types"""
+    if "std::collections::hash_map::" in nm or "std::collections::hash_set::" in nm:
+        head = nm.split(" as ")[0]
+        if any(x in head for x in ("Iter", "Keys", "Values", "Drain", "IntoIter", "IntoKeys", "IntoValues", "Difference", "Union", "Intersection", "ExtractIf")):
+            return True
+    if "std::collections::HashMap" in nm or "std::collections::HashSet" in nm:
+        last = nm.split("::")[-1]
+        if nm.startswith("<") and " as std::iter::IntoIterator>" in nm:
+            return True
+        if not nm.startswith("<") and last in HASH_ITER_METHODS:
+            return True
+    return False
 
 
 def muxing_entries(cx):
